@@ -436,6 +436,12 @@ def run_xml(ctx, text, case, sdir):
     o = call(lambda: odml.load(path, show_warnings=False))
     judge(rec, "odml.load-xml", "lenient", o[0], o[1], None, o[2], case, o[3], must_succeed=current,
           wrong_version=wrong_version)
+    # the default: with the validation report after parsing
+    o = call(lambda: ODMLReader("XML").from_string(text))
+    judge(rec, "odmlreader-xml.from_string+report", "strict", o[0], o[1], None, o[2], case, o[3], wrong_version=wrong_version)
+    o = call(lambda: odml.load(path))
+    judge(rec, "odml.load-xml+report", "lenient", o[0], o[1], None, o[2], case, o[3], must_succeed=current,
+          wrong_version=wrong_version)
 
 
 def run_dict(ctx, d, case, sdir, as_text=None):
@@ -471,6 +477,12 @@ def run_dict(ctx, d, case, sdir, as_text=None):
               o[2], case, o[3], must_succeed=(fmt == "YAML" and shaped), wrong_version=wrong_version)
         o = call(lambda: odml.load(path, fmt, show_warnings=False))
         judge(rec, "odml.load-%s" % fmt.lower(), "lenient" if fmt == "YAML" else "strict", o[0], o[1], None, o[2], case,
+              o[3], must_succeed=(fmt == "YAML" and shaped), wrong_version=wrong_version)
+        o = call(lambda: ODMLReader(fmt).from_string(text))
+        judge(rec, "odmlreader-%s.from_string+report" % fmt.lower(), "strict", o[0], o[1], None, o[2], case, o[3],
+              wrong_version=wrong_version)
+        o = call(lambda: odml.load(path, fmt))
+        judge(rec, "odml.load-%s+report" % fmt.lower(), "lenient" if fmt == "YAML" else "strict", o[0], o[1], None, o[2], case,
               o[3], must_succeed=(fmt == "YAML" and shaped), wrong_version=wrong_version)
 
 
@@ -514,7 +526,15 @@ def one_defect_spec(rng):
 
 
 DEFECTS = ["duplicate-section", "duplicate-property", "unknown-element", "bad-value", "nameless-property",
-           "attribute", "bad-cardinality", "bad-id"]
+           "attribute", "bad-cardinality", "bad-id", "odd-value-text", "dependency-on-typed"]
+
+TYPED_TARGETS = [("int", "[1,2]", "two"), ("float", "1.5", "x"), ("boolean", "true", "yes"), ("date", "2020-01-02", "tomorrow"),
+                 ("time", "01:02:03", "noon"), ("datetime", "2020-01-02 03:04:05", "now"), ("2-tuple", "(1;2)", "1"), ("int", "[1,2]", "2")]
+
+# value texts that are hard on the list syntax of <value>: bare carriage return, line breaks outside quotes, one very long
+# entry, unbalanced quotes and brackets
+ODD_VALUE_TEXTS = ["[a,\rb]", "[1,2,\n3,4]", "[" + "x" * 140000 + ",y]", "[\"unclosed,b]", "[a\"b,c]", "[[1,2],[3]]", "[,]", "[ ]",
+                   "[a,b", "a,b]", "[\"a\nb\",c]", "\r", "[\r]", "[a,b]]", "[\x85,\u2028]"]
 
 
 def inject_xml_defect(rng, text, defect):
@@ -542,6 +562,18 @@ def inject_xml_defect(rng, text, defect):
         top.insert(rng.randrange(len(top)), e)
     elif defect == "nameless-property":
         e = etree.fromstring("<property><value>1</value><type>int</type></property>")
+        top.insert(rng.randrange(len(top)), e)
+    elif defect == "dependency-on-typed":
+        # no defect at all: a Property depending on a typed sibling, with a dependency value that is no text form of that type
+        dtype, val, depval = rng.choice(TYPED_TARGETS)
+        a = etree.fromstring("<property><name>typed_target</name><value>%s</value><type>%s</type></property>" % (val, dtype))
+        b = etree.fromstring("<property><name>dependent</name><value>1</value><type>int</type><dependency>typed_target</dependency>"
+                             "<dependencyvalue>%s</dependencyvalue></property>" % depval)
+        top.insert(rng.randrange(len(top)), a)
+        top.insert(rng.randrange(len(top)), b)
+    elif defect == "odd-value-text":
+        e = etree.fromstring("<property><name>defective</name><value/><type>string</type></property>")
+        e.find("value").text = rng.choice(ODD_VALUE_TEXTS)
         top.insert(rng.randrange(len(top)), e)
     elif defect == "attribute":
         top.findall("property")[0].set("foo", "bar")
@@ -582,7 +614,8 @@ def check_keeps_valid_parts(ctx, spec, text, defect, case):
             rec.violation("xml/lenient/one-defect:%s/valid-%s-altered:%s" % (defect, node["k"], d[0]["field"]),
                           "%s: %r" % (path, d[:1]), case)
             return
-    if defect not in ("bad-id",) and not rd.warnings:
+    # (an odd value text may be legal text after all: whether it is taken as it is or reported is not prescribed)
+    if defect not in ("bad-id", "odd-value-text", "dependency-on-typed") and not rd.warnings:
         rec.violation("xml/lenient/one-defect:%s/no-warning-recorded" % defect, "", case)
 
 
@@ -605,6 +638,16 @@ def inject_dict_defect(rng, d, defect):
         top["properties"].insert(rng.randrange(len(top["properties"])), {"name": "defective", "value": ["not-a-number"], "type": "int"})
     elif defect == "nameless-property":
         top["properties"].insert(rng.randrange(len(top["properties"])), {"value": [1], "type": "int"})
+    elif defect == "dependency-on-typed":
+        dtype, val, depval = rng.choice([t for t in TYPED_TARGETS if t[0] in ("int", "float", "boolean")])
+        pv = {"int": [1, 2], "float": [1.5], "boolean": [True]}[dtype]
+        top["properties"].insert(rng.randrange(len(top["properties"])), {"name": "typed_target", "type": dtype, "value": pv})
+        top["properties"].insert(rng.randrange(len(top["properties"])),
+                                 {"name": "dependent", "type": "int", "value": [1], "dependency": "typed_target",
+                                  "dependency_value": depval})
+    elif defect == "odd-value-text":
+        top["properties"].insert(rng.randrange(len(top["properties"])),
+                                 {"name": "defective", "type": "int", "value": rng.choice([[[1, [2]]], {"a": 1}, [None], "[1,", [1, "x"]])})
     elif defect == "attribute":
         top["properties"][0]["foo"] = "bar"
     elif defect == "bad-cardinality":
